@@ -13,9 +13,9 @@ def main(tier):
     footprint.plume_sections(P, rep)
     footprint.angle_interpolation(P, rep)
     footprint.ellipse_fraction(P, rep)
+    footprint.plume_head(P, rep)
     dep.surface_pairing(P, rep)
-    rep.assumptions.append("correctness of the winding-number test itself (polygon_contains_point_implementation) and of the head-ellipsoid "
-                           "arithmetic is NOT decided: geometry over reals")
+    rep.assumptions.append("correctness of the winding-number test itself (polygon_contains_point_implementation) is NOT decided: geometry over reals")
     rep.explanation = ("Closed depth intervals and polygon-test arguments of the extent tests, shape of the longitude-alias wrappers and their "
                        "exclusive use, plume bracket interpolation (each quantity from its own table with one fraction, front/back outside "
                        "the table), shorter-arc angle interpolation in its three cases, ellipse equation, depth-surface pairing.")
